@@ -199,22 +199,28 @@ def stmt_effects(st, env=None):
 def compound_invalidations(st):
     """Items invalidated by a compound statement treated atomically:
     `for name in [literals]: [if hasattr/if key in ...:] delattr/del/...`."""
+    a, b = compound_invalidations2(st)
+    return a | b
+
+
+def compound_invalidations2(st):
+    """(unconditional, under an `if`) items invalidated by a literal loop."""
     ll = literal_loop(st)
     if ll is None:
-        return set()
+        return set(), set()
     var, vals = ll
-    out = set()
+    out, outc = set(), set()
     for v in vals:
         env = {var: v}
 
-        def walk(stmts):
+        def walk(stmts, cond=False):
             for s in stmts:
                 if isinstance(s, ast.If):
-                    walk(s.body)
+                    walk(s.body, True)
                 else:
-                    out.update(stmt_effects(s, env)[1])
+                    (outc if cond else out).update(stmt_effects(s, env)[1])
         walk(st.body)
-    return out
+    return out, outc
 
 
 def node_invalidations(n):
@@ -357,24 +363,34 @@ def rule_OW3(ctx, mod, E):
             'keepresults': {'_dict_grid', '_dict_efield', '_dict_efield_info',
                             '_dict_bfield', '_dict_bfield_info'}}
     need['all'] = need['computed'] | {'_dict_grid'}
+    # items that need not exist (created by the gradient / the misfit only):
+    # dropping them `if they exist` is a complete reset.  Everything else
+    # always exists and holds a value of the last computation, so a reset
+    # under an existence test of SOMETHING ELSE is not a reset
+    optional = {'_dict_bfield', '_dict_bfield_info', 'residual', 'weights'}
     for what, want in need.items():
-        got = set()
+        got, gotc = set(), set()
 
-        def walk(stmts):
+        def walk(stmts, cond=False):
             for st in stmts:
                 if isinstance(st, ast.If):
                     try:
                         v = FiniteEval({ps[1]: what}).ev(st.test)
                     except AnalysisError:
-                        v = True      # hasattr / file_dir guards
-                    walk(st.body if v else st.orelse)
+                        # hasattr / `in data.keys()` / file_dir guards
+                        walk(st.body, True)
+                        continue
+                    walk(st.body if v else st.orelse, cond)
                 elif isinstance(st, ast.For):
-                    got.update(compound_invalidations(st))
+                    u_, c_ = compound_invalidations2(st)
+                    (gotc if cond else got).update(u_)
+                    gotc.update(c_)
                     if literal_loop(st) is None:
-                        walk(st.body)
+                        walk(st.body, cond)
                 else:
-                    got.update(stmt_effects(st)[1])
+                    (gotc if cond else got).update(stmt_effects(st)[1])
         walk(au.body_nodoc(fn))
+        got |= gotc & optional
         missing = want - got
         ctx.check('C12.OW3.clean', f"Simulation.clean('{what}')", not missing,
                   f"clean('{what}') does not reset {sorted(missing)}",
@@ -514,6 +530,60 @@ def rule_OW5(ctx, mod, E):
         ctx.check('C12.OW5.copy', f'Simulation.from_dict {k}',
                   has(f"{X}['{k}'] = {c}({X}['{k}'])", fd),
                   f'{k} is not rebuilt through {c}', ctx.where(mod, fd))
+
+
+def rule_OW5_roundtrip(ctx, mod, E):
+    """Every input of the constructor travels through to_dict / from_dict:
+    a copy (or a stored simulation) that silently falls back to the default
+    of an option is not the simulation that was copied."""
+    init, td, fd = (E.members[k] for k in ('__init__', 'to_dict',
+                                           'from_dict'))
+    kw = init.args.kwarg.arg if init.args.kwarg else None
+    inputs = [a for a in au.params(init)[1:]]
+    for c in au.calls(init):
+        if kw and ast.unparse(c.func) == f'{kw}.pop' and c.args and \
+                isinstance(c.args[0], ast.Constant):
+            inputs.append(c.args[0].value)
+    ctx.anchor(len(inputs) >= 10, 'constructor inputs of Simulation')
+    odict = [s_ for s_ in td.body if isinstance(s_, ast.Assign) and
+             isinstance(s_.value, ast.Dict) and any(
+                 isinstance(k, ast.Constant) and k.value == '__class__'
+                 for k in s_.value.keys)]
+    ctx.anchor(len(odict) == 1, 'dict literal of Simulation.to_dict')
+    emitted = {k.value: ast.unparse(v) for k, v in zip(
+        odict[0].value.keys, odict[0].value.values)
+        if isinstance(k, ast.Constant)}
+    ctor = [c for c in au.calls(fd, 'cls') if any(
+        k.arg is None for k in c.keywords)]
+    ctx.anchor(len(ctor) == 1, 'cls(**kwargs) in Simulation.from_dict')
+    X = [ast.unparse(k.value) for k in ctor[0].keywords if k.arg is None][0]
+    consumed = set()
+    for n in ast.walk(fd):
+        if isinstance(n, ast.Assign):
+            t = n.targets[0]
+            if isinstance(t, ast.Subscript) and ast.unparse(t.value) == X \
+                    and isinstance(t.slice, ast.Constant):
+                consumed.add(t.slice.value)
+            if ast.unparse(t) == X and isinstance(n.value, ast.DictComp):
+                it = n.value.generators[0].iter
+                lst = au.const_list(it)
+                if lst is None and isinstance(it, ast.Name):
+                    ds = [a for a in ast.walk(fd) if isinstance(
+                        a, ast.Assign) and ast.unparse(a.targets[0]) == it.id]
+                    lst = au.const_list(ds[0].value) if len(ds) == 1 else None
+                consumed |= set(lst or [])
+    for k in inputs:
+        v = emitted.get(k)
+        ctx.check('C12.OW5.roundtrip', f'Simulation input `{k}`',
+                  v in (f'self.{k}', f'self._{k}', f'self.{k}.to_dict()')
+                  and k in consumed,
+                  f'constructor input `{k}` is written by to_dict as `{v}` '
+                  f'and {"" if k in consumed else "not "}handed to the '
+                  'constructor by from_dict: a copy / a re-loaded simulation '
+                  'falls back to the default of this option',
+                  ctx.where(mod, odict[0] if v is None else fd),
+                  sample={'input': k, 'emitted': v})
+    ctx.floor('C12.OW5.roundtrip', 10)
 
 
 def rule_OW6(ctx, mod, E):
@@ -807,6 +877,7 @@ def run(ctx):
     rule_OW3(ctx, mod, E)
     rule_OW4(ctx, mod, E)
     rule_OW5(ctx, mod, E)
+    rule_OW5_roundtrip(ctx, mod, E)
     rule_OW6(ctx, mod, E)
     rule_OW6_serial(ctx, mod, E)
     rule_OW7(ctx, mod, E)
